@@ -116,7 +116,7 @@ func init() {
 			"TimeToLive finite and Unlimited (incl. first per-call TTL arriving late), all three backends; distinct_nontrivial = distinct (backend, ttl mode, class-mix pattern per round) cases containing a long-expired and a surviving entry",
 		Required:    []string{"cycles.observed", "entries.long_expired.deleted", "entries.never.survived", "entries.recent.survived", "entries.fresh.survived", "unlimited.late_ttl.cases", "hostile_callout.writes", "kind.ShardedMap", "kind.SyncMap", "kind.ShardedMapOf", "stress.rounds", "aging.must_be_deleted.checked", "aging.must_survive.checked", "parked.cases", "renewed.entries_checked"},
 		Assumptions: []string{"wall clock not stepped; class margins are >=1s against a 1h DeleteExpiredAfter boundary", "no eviction limit configured; EvictionNeeded always answers false"},
-		Timeout:     func(string) time.Duration { return 15 * time.Minute },
+		Timeout:     func(string) time.Duration { return 45 * time.Minute },
 	})
 }
 
@@ -138,7 +138,7 @@ func runC11(b *Batch) {
 	if !b.Skip(2000000) && b.Only < 0 || b.Only == 2000000 {
 		c11Aging(b, 2000000)
 	}
-	n := b.Pick(2000, 60000) / b.NBatches
+	n := b.Pick(2000, 400000) / b.NBatches
 	var wg sync.WaitGroup
 	sem := make(chan struct{}, 4)
 	for i := 0; i < n; i++ {
@@ -352,12 +352,12 @@ func init() {
 			"(max rank of removed <= min rank of kept) are judged; distinct_nontrivial = distinct (backend,strategy,trigger,L,n,fraction) cells in which an eviction was due",
 		Required:    []string{"cases.with_long_expired", "cases.no_trigger", "cases.count", "cases.needed", "cases.heap", "evictions.judged", "order.pairs_checked", "strategy.MostExpired", "strategy.LRU", "strategy.LFU"},
 		Assumptions: []string{"HeapInuse of the child process exceeds 1 byte; wall clock strictly advanced between LRU reads (spin)"},
-		Timeout:     func(string) time.Duration { return 15 * time.Minute },
+		Timeout:     func(string) time.Duration { return 45 * time.Minute },
 	})
 }
 
 func runC12(b *Batch) {
-	n := b.Pick(2400, 60000) / b.NBatches
+	n := b.Pick(2400, 400000) / b.NBatches
 	var wg sync.WaitGroup
 	sem := make(chan struct{}, 4)
 	for i := 0; i < n; i++ {
